@@ -68,7 +68,7 @@ pub fn unquote_to_string<'a>(u: &Unquote<'a>) -> (r: String) ensures r@ == unq(u
 def build(repo):
     u = Unit(NAME, repo)
     u.raw('use vstd::std_specs::iter::IteratorSpec;\nuse std::borrow::Cow;\nuse core::iter::FusedIterator;\n', 'units/unq.py')
-    u.prelude('strmodel.rs', 'unqspec.rs')
+    u.prelude('charclass.rs', 'strmodel.rs', 'unqspec.rs')
     u.raw(SPEC, 'units/unq.py')
     u.items('link_format.rs', 'const QUOTE_ESCAPE_CHAR', 'pub struct Unquote', 'enum UnquoteState')
     u.impl_fns('link_format.rs', "impl<'a> Unquote<'a>", ['new', 'to_cow', 'is_quoted'])
